@@ -37,6 +37,7 @@ def _cases(ctx, deep=False):
     cases = []
     seeds = ctx.scale(2, 3) * (2 if deep else 1)
     sizes = [(3, 2)] if not ctx.thorough else [(3, 2), (0, 0), (1, 1), (5, 4)]
+    # (the empty-table configuration is always covered by corpus/C02/F02g_empty_param_table.json)
     # corpus first
     cdir = os.path.join(coqrun.VERIF, 'corpus', 'C02')
     if os.path.isdir(cdir):
